@@ -579,7 +579,7 @@ class Expression:
         return Absolute(self)
 
     def switch_endian(self, fmt):
-        if isinstance(fmt, str) and len(fmt) > 1:
+        if isinstance(fmt, str) and len(fmt) > 1 and fmtsize(fmt[-1]) > 1:
             return SwitchEndian(self, fmt)
         return self
 
@@ -946,8 +946,15 @@ class Memory(Expression):
     def calculate(self, dst, long, force=False):
         if self.has_endian():
             with self.without_endian().switch_endian(self.fmt) \
-                 .calculate(dst, long, force) as (dst, long):
-                yield dst, long
+                 .calculate(dst, long, force) as (dst, ret_long):
+                # the byte swap zero-extends: restore the sign
+                size = fmtsize(self.fmt[-1])
+                wide = ret_long if long is None else long
+                shift = (64 if wide else 32) - size * 8
+                if self.signed and size > 1 and shift > 0:
+                    regs = self.ebpf.sr if wide else self.ebpf.sw
+                    regs[dst] = (regs[dst] << shift) >> shift
+                yield dst, ret_long
                 return
         with ExitStack() as exitStack:
             if isinstance(self.address, Sum):
